@@ -95,6 +95,8 @@ def _op(o):
         return f"OpSet {_faces(o[1])} {_cond(o[2])}"
     if o[0] == "internal":
         return "OpInternal"
+    if o[0] == "copy":
+        return "OpCopy"
     return f"OpUser {cnat(o[1])} {cnat(o[2])} {TY[o[3]]}"
 
 
@@ -108,18 +110,27 @@ def _dump(d):
     return clist(d, lambda c: f"({clist(c[0], cbool)}, {clist(c[1], cbool)}, {clist(c[2], cbool)})")
 
 
-def _py_faces(f):
+def _py_faces(f, rep=0):
     if f is None:
         return None
     if f[0] == "idx":
-        return np.array(f[1], dtype=int)
+        return np.array(f[1], dtype=[np.int64, np.int32, np.int64][rep % 3])
     return np.array(f[1], dtype=bool)
 
 
-def _py_cond(c):
+def _py_cond(c, rep=0):
+    """cond as str, list of str, tuple of str or numpy object array (as tests/…/test_tpsa.py)."""
     if c is None:
         return None
-    return c[1] if c[0] == "one" else list(c[1])
+    if c[0] == "one":
+        return c[1]
+    if rep % 3 == 1:
+        a = np.zeros(len(c[1]), dtype="object")
+        a[:] = list(c[1])
+        return a
+    if rep % 3 == 2:
+        return tuple(c[1])
+    return list(c[1])
 
 
 def _scramble(handed, nfc):
@@ -129,6 +140,8 @@ def _scramble(handed, nfc):
         if isinstance(a, np.ndarray):
             if a.dtype == bool:
                 a[:] = ~a
+            elif a.dtype == object:
+                a[:] = "xx"
             else:
                 a[:] = (a + 1) % max(nfc, 1)
         elif isinstance(a, list):
@@ -180,23 +193,29 @@ class C39(Prop):
     design_ref = "DESIGN.md §5 C39, §6 row C39"
     level_text = (
         "Coq theorems over an executable transcription of BoundaryCondition.__init__, "
-        "BoundaryConditionVectorial.__init__/set_bc and internal_to_dirichlet on a grid given by its "
-        "face tags: for EVERY grid, constructor call (index or mask faces, string or list conditions) "
-        "and EVERY later sequence of set_bc / internal_to_dirichlet calls (successful or raising) and "
-        "per-component manual assignments on boundary faces, every boundary face carries exactly one "
-        "of Dirichlet/Neumann/Robin in every component and every other face none (C39_partition_*); "
-        "boundary faces not named by the constructor are Neumann (C39_default_neumann); a successful "
-        "uniform assignment gives exactly the named faces the requested type and changes nothing else "
-        "(C39_assignment_exact). The pre-fix assignment is refuted in Coq. Tie: porepy and the model "
-        "(inside Coq) are run on real grids incl. split fractured grids; all flag arrays, error and "
-        "warning outcomes are compared after every call.")
+        "BoundaryConditionVectorial.__init__/set_bc, internal_to_dirichlet and copy on a grid given by "
+        "its face tags: for EVERY grid, constructor call (index or mask faces, string or list "
+        "conditions) and EVERY later sequence of set_bc / internal_to_dirichlet / copy calls "
+        "(successful or raising) and per-component manual assignments on boundary faces, every "
+        "boundary face carries exactly one of Dirichlet/Neumann/Robin in every component and every "
+        "other face none (C39_partition_*); boundary faces not named by the constructor are Neumann "
+        "(C39_default_neumann); a successful uniform assignment gives exactly the named faces the "
+        "requested type (C39_assignment_exact) and a successful list assignment gives every named face "
+        "the LAST condition listed for it, repeated faces included, and changes nothing else "
+        "(C39_assignment_list_last_wins). The pre-fix assignment is refuted in Coq. Tie: porepy and "
+        "the model (inside Coq) are run on real grids incl. split fractured grids and lower-dimensional "
+        "grids with tip faces; all flag arrays, error and warning outcomes are compared after every "
+        "call, after the arrays handed in have been overwritten in place.")
     level_note = (
         "Trusted: the grid enters the model only through its three face tags (domain boundary, "
         "fracture, tip), extracted from the real porepy grid on every run; numpy's vectorised masked "
         "assignment in internal_to_dirichlet is written face by face; condition strings are "
         "lower-cased by the harness the way str.lower() does. Face indices are non-negative (a "
-        "negative index fails the isin test in the code exactly like an out-of-range one). NOT "
-        "covered: robin_weight / basis arrays, copy(), direct user writes that break the invariant.")
+        "negative index fails the isin test in the code exactly like an out-of-range one). Oracle "
+        "only (constants, no theorem): robin_weight / basis keep their defaults (ones / identity per "
+        "face), num_faces / bf / is_internal describe the grid; copy() returns an independent object "
+        "of the same class (checked by mutating the copy; in the model copy is the identity on the "
+        "flags). NOT covered: direct user writes that break the invariant.")
     technique = ("Coq proof (partition invariant preserved by every call, induction over call histories) "
                  "+ vm_compute execution correspondence on real grids")
     rule = ("grid drawn from 17 real grids (Cartesian/simplex 2-D/3-D, five split fractured grids incl. "
@@ -207,7 +226,10 @@ class C39(Prop):
             "lower-dimensional fracture grids WITH tip faces (1-D and 2-D, both classes); every array "
             "or list handed to the implementation is overwritten in place after the call and the "
             "flags re-read (aliasing probe); then 0-6 further calls "
-            "(set_bc with the same variety, internal_to_dirichlet, manual component assignment); "
+            "(set_bc with the same variety, internal_to_dirichlet, copy() followed by further calls on "
+            "the copy while the original is watched, manual component assignment); conditions handed "
+            "over as list, tuple or numpy object array, faces as int32/int64 arrays; robin_weight, "
+            "basis, num_faces, bf, is_internal checked against their documented values; "
             "non-trivial = object constructed and at least one non-Neumann flag set")
     trusted = ["face tags of the real grid are the model's grid; masked numpy assignment = face-by-face"]
     assumptions = ["manual (user) flag writes, where generated, set exactly one type on a boundary face"]
@@ -280,21 +302,23 @@ class C39(Prop):
             f, c = self._gen_call(rng, g)
             ops = []
             bf = [int(i) for i in g.get_all_boundary_faces()]
-            for _ in range(rng.randint(0, 6) if vect else rng.randint(0, 1)):
+            for _ in range(rng.randint(0, 6) if vect else rng.randint(0, 3)):
                 r = rng.random()
                 if not vect:
                     ops.append(["user", 0, rng.choice(bf), rng.choice(["dir", "neu", "rob"])]
-                               if rng.random() < 0.7 else ["internal"])
+                               if rng.random() < 0.6 else rng.choice([["internal"], ["copy"]]))
                 elif r < 0.65:
                     ff, cc = self._gen_call(rng, g)
                     ops.append(["set", ff, cc])
-                elif r < 0.8:
+                elif r < 0.76:
                     ops.append(["internal"])
+                elif r < 0.84:
+                    ops.append(["copy"])
                 elif r < 0.97:
                     ops.append(["user", rng.randrange(g.dim), rng.choice(bf), rng.choice(["dir", "neu", "rob"])])
                 else:
                     ops.append(["user", g.dim + rng.randint(0, 1), rng.choice(bf), "dir"])
-            yield {"grid": key, "vect": vect, "faces": f, "cond": c, "ops": ops}
+            yield {"grid": key, "vect": vect, "faces": f, "cond": c, "ops": ops, "rep": rng.randrange(3)}
 
     # ------------------------------------------------------------------ implementation
     def run_impl(self, case):
@@ -303,25 +327,37 @@ class C39(Prop):
         tags = [[bool(g.tags["domain_boundary_faces"][i]), bool(g.tags["fracture_faces"][i]),
                  bool(g.tags["tip_faces"][i])] for i in range(g.num_faces)]
         bf = sorted(int(i) for i in g.get_all_boundary_faces())
-        fa, ca = _py_faces(case["faces"]), _py_cond(case["cond"])
+        rep_ = int(case.get("rep", 0))
+        fa, ca = _py_faces(case["faces"], rep_), _py_cond(case["cond"], rep_)
         out, bc = _call(lambda: cls(g, fa, ca))
         res = {"tags": tags, "bf": bf, "dim": int(g.dim), "ctor": out,
-               "ctor_dump": None, "steps": [], "alias": None}
+               "ctor_dump": None, "steps": [], "alias": None, "defaults": None}
         if bc is None:
             return res
         before = _snapshot(bc)
         _scramble([fa, ca], g.num_faces)
         res["ctor_dump"] = _snapshot(bc)          # flags re-read after the probe
         if before != res["ctor_dump"]:
-            res["alias"] = "the constructor"
+            res["alias"] = "the constructor (arguments overwritten afterwards)"
+        res["defaults"] = self._defaults(bc, g, case["vect"])
+        originals = []       # (object, snapshot at the time it was copied)
         for k, o in enumerate(case["ops"]):
             handed = []
             if o[0] == "set":
-                fa, ca = _py_faces(o[1]), _py_cond(o[2])
+                fa, ca = _py_faces(o[1], rep_ + k + 1), _py_cond(o[2], rep_ + k + 1)
                 handed = [fa, ca]
                 x, _ = _call(lambda: bc.set_bc(fa, ca))
             elif o[0] == "internal":
                 x, _ = _call(lambda: bc.internal_to_dirichlet(g))
+            elif o[0] == "copy":
+                old = bc
+                x, new = _call(lambda: old.copy())
+                if new is not None:
+                    if type(new) is not type(old) and res["alias"] is None:
+                        res["alias"] = (f"call {k} copy: the copy of a {type(old).__name__} is a "
+                                        f"{type(new).__name__}")
+                    originals.append((old, _snapshot(old)))
+                    bc = new
             else:
                 def poke(o=o):
                     idx = (o[1], o[2]) if case["vect"] else o[2]
@@ -336,9 +372,34 @@ class C39(Prop):
             _scramble(handed, g.num_faces)
             after = _snapshot(bc)
             if before != after and res["alias"] is None:
-                res["alias"] = f"call {k} {o[0]}"
+                res["alias"] = f"call {k} {o[0]} (arguments overwritten afterwards)"
+            for obj, snap in originals:
+                if _snapshot(obj) != snap and res["alias"] is None:
+                    res["alias"] = f"call {k} {o[0]} on a copy changed the object it was copied from"
+            if res["defaults"] is None:
+                res["defaults"] = self._defaults(bc, g, case["vect"])
             res["steps"].append([x, after])
         return res
+
+    @staticmethod
+    def _defaults(bc, g, vect):
+        """robin_weight and basis keep their documented defaults (ones resp. the identity per
+        face) through the constructor and every later call; bookkeeping attributes are right."""
+        nfc = g.num_faces
+        if not vect:
+            ok = (bc.robin_weight.shape == (nfc,) and np.all(bc.robin_weight == 1.0)
+                  and bc.basis.shape == (nfc,) and np.all(bc.basis == 1.0))
+        else:
+            eye = np.eye(g.dim)
+            ok = (bc.robin_weight.shape == (g.dim, g.dim, nfc) and bc.basis.shape == (g.dim, g.dim, nfc)
+                  and all(np.array_equal(bc.robin_weight[:, :, f], eye) and np.array_equal(bc.basis[:, :, f], eye)
+                          for f in range(nfc)))
+        if not ok:
+            return "robin_weight / basis are not the default (ones / identity per face)"
+        if bc.num_faces != nfc or not np.array_equal(np.sort(bc.bf), np.sort(g.get_all_boundary_faces())) \
+                or not np.array_equal(bc.is_internal, g.tags["fracture_faces"]):
+            return "num_faces / bf / is_internal do not describe the grid"
+        return None
 
     # ------------------------------------------------------------------ oracle
     def _check_partition(self, res, dump, where):
@@ -357,8 +418,9 @@ class C39(Prop):
         if res["ctor_dump"] is None:
             return None
         if res.get("alias"):
-            return (f"aliasing: the flag arrays changed when the arrays handed to {res['alias']} "
-                    f"were overwritten in place afterwards (the object shares memory with its arguments)")
+            return f"aliasing: {res['alias']}: the object shares memory with its arguments or with its copy"
+        if res.get("defaults"):
+            return "defaults: " + res["defaults"]
         nfc = len(res["tags"])
         bf = set(res["bf"])
         frac = {i for i, t in enumerate(res["tags"]) if t[1]}
@@ -382,6 +444,8 @@ class C39(Prop):
             elif o[0] == "internal":
                 if x[0] == "done":
                     touched |= frac
+            elif o[0] == "copy":
+                pass
             else:
                 touched.add(o[2])
             for c, (d, n, r) in enumerate(dump):
